@@ -27,6 +27,8 @@ type Profile struct {
 	Ops         map[string]int // op weights
 	MaxKeys     int
 	OnlyExtend  bool // reads/SetExpiresAfter only extend deadlines (C13 proviso): no custom read tables shorter than create
+	TinyRefresh bool // refresh durations 1..1000ns
+	LongExpiry  bool // expiry durations >= 10000ns (so entries outlive their refresh time)
 }
 
 func pick[T any](t *rapid.T, label string, xs ...T) T {
@@ -61,12 +63,20 @@ func genDur(t *rapid.T, p *Profile, label string) int64 {
 
 func genTable(t *rapid.T, p *Profile, label string, allowZero bool) []int64 {
 	out := make([]int64, 8)
+	isRef := len(label) >= 3 && label[:3] == "ref"
 	for i := range out {
 		if allowZero && rapid.IntRange(0, 3).Draw(t, label+"z") == 0 {
 			out[i] = 0
 			continue
 		}
-		out[i] = genDur(t, p, label)
+		switch {
+		case isRef && p.TinyRefresh:
+			out[i] = int64(rapid.IntRange(1, 1000).Draw(t, label))
+		case !isRef && p.LongExpiry:
+			out[i] = int64(rapid.IntRange(10000, 100000).Draw(t, label))
+		default:
+			out[i] = genDur(t, p, label)
+		}
 	}
 	return out
 }
@@ -202,7 +212,7 @@ func GenAction(t *rapid.T, p *Profile, cfg *Config, ops []string) Action {
 	case "setmaximum":
 		a.N = rapid.IntRange(0, 12).Draw(t, "newmax")
 	case "advance":
-		if p.TinyTTL {
+		if p.TinyTTL || p.TinyRefresh {
 			a.Dur = int64(rapid.IntRange(1, 2000).Draw(t, "adv"))
 		} else {
 			cls := rapid.IntRange(0, 9).Draw(t, "advcls")
@@ -288,7 +298,16 @@ func GenScript(t *rapid.T, p *Profile) *Script {
 	ops := expandOps(p, &cfg)
 	ag := rapid.Custom(func(t *rapid.T) Action { return GenAction(t, p, &cfg, ops) })
 	s := &Script{Cfg: cfg}
-	s.Actions = rapid.SliceOfN(ag, p.MinLen, p.MaxLen).Draw(t, "actions")
+	// rapid's slice lengths average about min+max(min,5): pick the minimum from a few classes so that
+	// long scripts are common while a failing case can still shrink to the smallest class
+	lo := pick(t, "lenclass", p.MinLen, 8, 25)
+	if lo < p.MinLen {
+		lo = p.MinLen
+	}
+	if lo > p.MaxLen {
+		lo = p.MaxLen
+	}
+	s.Actions = rapid.SliceOfN(ag, lo, p.MaxLen).Draw(t, "actions")
 	return s
 }
 
